@@ -814,6 +814,10 @@ pub fn loss_probe_size_native(_x: u8) -> u32 {
     let mut conn = mk_conn(false, false);
     let mut cfg = TransportConfig::default();
     cfg.pad_to_mtu(true);
+    if _x == 1 {
+        // a configuration that promises a larger minimum MTU does not enlarge loss probes
+        cfg.min_mtu(1400);
+    }
     conn.config = Arc::new(cfg);
     conn.state = State::Established;
     conn.path.mtud = mtud::mk_black_hole_ready();
